@@ -481,16 +481,21 @@ class Run:
         return 0
 
 
-def proof_obligations(run, prop):
-    """make + pin file + audit; records coverage; returns True when all proof obligations check"""
+def proof_obligations(run, prop, extra_pins=()):
+    """make + pin file(s) + audit; records coverage; returns True when all proof obligations check"""
     ok, out = coq_make()
     audit = audit_sources()
     pin = {"obligations": 0, "discharged": 0, "axioms": [], "ok": False, "output": ""}
     if ok:
         pin = pin_check(prop)
+        for extra in extra_pins:
+            e = pin_check(extra)
+            pin = {"obligations": pin["obligations"] + e["obligations"], "discharged": pin["discharged"] + e["discharged"],
+                   "axioms": sorted(set(pin["axioms"]) | set(e["axioms"])), "bad_axioms": pin["bad_axioms"] + e["bad_axioms"],
+                   "ok": pin["ok"] and e["ok"], "output": pin["output"] + e["output"]}
     run.coverage.update({
         "obligations": max(pin["obligations"], 1), "discharged": pin["discharged"],
-        "checker_cmd": "make -C coq (coqc 8.16.1, full .vo build) && coqc coq/Pins/%s.v (Check <thm> : <statement>; Print Assumptions)" % prop,
+        "checker_cmd": "make -C coq (coqc 8.16.1, full .vo build) && coqc coq/Pins/%s.v (Check <thm> : <statement>; Print Assumptions)" % "{,".join([prop] + list(extra_pins)),
         "trusted_base": [
             "Coq 8.16.1 kernel incl. vm_compute (no native_compute)",
             "axioms reported by Print Assumptions for the pinned theorems: %s" % (", ".join(pin["axioms"]) or "none (closed under the global context)"),
